@@ -114,6 +114,9 @@ def schema_accepts(defs: dict, node, shape, depth=0) -> bool:
     t = node.get("type")
     if t is None:
         return True  # unconstrained
+    if isinstance(t, (list, tuple)):
+        # "type": ["integer", "null"] - any of the listed types
+        return any(schema_accepts(defs, dict(node, type=one), shape, depth + 1) for one in t)
     if shape == "string":
         return t == "string"
     if shape == "integer":
@@ -211,6 +214,11 @@ def validate(defs: dict, node, value, depth=0):
         if all(r is not None for r in reasons):
             return "no anyOf alternative accepts it (" + "; ".join(sorted(set(r for r in reasons if r))[:3]) + ")"
     t = node.get("type")
+    if isinstance(t, (list, tuple)):
+        whys = [validate(defs, dict(node, type=one), value, depth + 1) for one in t]
+        if all(w is not None for w in whys):
+            return f"none of the types {list(t)} accepts it"
+        t = None
     if t is not None:
         ok = {"string": isinstance(value, str), "integer": isinstance(value, int) and not isinstance(value, bool),
               "number": isinstance(value, (int, float)) and not isinstance(value, bool), "boolean": isinstance(value, bool),
